@@ -19,7 +19,8 @@ Require Export QV.C09.Model.
 
 Inductive rstat := RIdle | RWaiting | RGot (p : Z) (n : N) | RTimedOut.
 
-Inductive blabel := BArrive (p : Z) | BEnter (r : nat) | BWake (r : nat) | BExpire (r : nat) | BReset (r : nat).
+Inductive blabel := BArrive (p : Z) | BEnter (r : nat) | BWake (r : nat) | BExpire (r : nat) | BReset (r : nat)
+                  | BDiscard.   (* discard_all by any thread, under the same condition variable *)
 
 Record bst := bmk { base : st; rd : nat -> rstat; dlv : list (nat * (Z * N)); sops : list op }.
 
@@ -41,6 +42,7 @@ Definition bstep (s : bst) (l : blabel) : option bst :=
   | BEnter r => match rd s r with RIdle => Some (take s r RWaiting false) | _ => None end
   | BWake r => match rd s r with RWaiting => Some (take s r RWaiting false) | _ => None end
   | BExpire r => match rd s r with RWaiting => Some (take s r RTimedOut true) | _ => None end
+  | BDiscard => Some (bmk (fst (step (base s) DiscardAll)) (rd s) (dlv s) (sops s ++ [DiscardAll]))
   | BReset r => match rd s r with
                 | RGot _ _ | RTimedOut => Some (bmk (base s) (upd (rd s) r RIdle) (dlv s) (sops s))
                 | _ => None end
